@@ -38,6 +38,7 @@ EXPLANATION = (
     "compression, so find() cannot cycle; (CENSUS) all "
     "panic-capable sites of the four crates are enumerated and classified (contract / guarded / unreviewed) as evidence."
     " (K10 absent=>Err) solve() returns an error when no global `start` exists, which is what keeps the lowering's `.find(..).unwrap()` from meeting None."
+    ' (UNSIGNED-SUB) every unsigned subtraction is listed with the invariant that keeps it from underflowing, or saturates; (GUARD guard-key-is-stable / output-size-bounded) a visited-set guard is not defeated by nodes created during the recursion, and unfolding the type graph into a tree is bounded (two known findings).'
 )
 UNDECIDED = ("absence of panics at the unreviewed census sites, arithmetic overflow, native stack depth on deeply nested input, "
              "termination of the parser loops (PROGRESS was not built) and of the type checker in general.")
